@@ -861,6 +861,15 @@ fn c06_judge(c: &C06Case, obs: &mut Obs) -> Result<(), String> {
             a.advance((*u as f64 * GRID_S) as f32);
         }
         for u in &pb {
+            if *u == 0 {
+                // advance(0) changes nothing, wherever it is inserted (also right after a transition)
+                let (v0, e0) = (b.current_values().clone(), b.is_ended());
+                b.advance(0.0);
+                if !same_vals(&v0, b.current_values()) || e0 != b.is_ended() {
+                    return Err(format!("segment {n}: advance(0) changed the animator: {:?} (ended {e0}) -> {:?} (ended {})", v0, b.current_values(), b.is_ended()));
+                }
+                continue;
+            }
             b.advance((*u as f64 * GRID_S) as f32);
         }
         let differ = pa.iter().filter(|x| **x != 0).collect::<Vec<_>>() != pb.iter().filter(|x| **x != 0).collect::<Vec<_>>();
@@ -932,14 +941,14 @@ fn c06_long_judge(c: &C06LongCase, obs: &mut Obs) -> Result<(), String> {
 pub struct C06TrainCase {
     pub tl: TlDesc,
     pub frames: u16,
-    /// frame time selector: 0 => 1/60, 1 => 1/144, 2 => 1/30, 3 => 0.016
+    /// frame time selector: 0 => 1/60, 1 => 1/144, 2 => 1/30, 3 => 0.016, 4 => 0.0005, 5 => 0.0009
     pub rate: u8,
     pub initial: Vals,
 }
 
 fn c06_train_judge(c: &C06TrainCase, obs: &mut Obs) -> Result<(), String> {
     let desc = AnimDesc { states: vec![Some(vec![c.tl.clone()]), None, None, None, None], initial_state: 0, initial_values: c.initial };
-    let dt: f32 = [1.0f32 / 60.0, 1.0 / 144.0, 1.0 / 30.0, 0.016][c.rate as usize % 4];
+    let dt: f32 = [1.0f32 / 60.0, 1.0 / 144.0, 1.0 / 30.0, 0.016, 0.0005, 0.0009][c.rate as usize % 6];
     let mut a = desc.build();
     for _ in 0..c.frames {
         a.advance(dt);
@@ -993,10 +1002,10 @@ pub fn c06(run: &mut Run) {
         run.tier.pick(20_000, 500_000),
         c06_long_judge,
     );
-    let train = (tl_strategy_animator(animator_timing_strategy()), 1u16..=3600, 0u8..4, vals_strategy()).prop_map(|(tl, frames, rate, initial)| C06TrainCase { tl, frames, rate, initial });
+    let train = (tl_strategy_animator(animator_timing_strategy()), 1u16..=3600, 0u8..6, vals_strategy()).prop_map(|(tl, frames, rate, initial)| C06TrainCase { tl, frames, rate, initial });
     run.prop(
         "c06_frame_trains",
-        "proptest: n (<=3600) frames of 1/60, 1/144, 1/30 or 0.016 s versus one advance of the real sum; both judged against the f64 model at the real sum with tolerance n*1ns + ulp (arbitrary, not exactly representable steps); non-trivial = judged strictly inside a changing segment",
+        "proptest: n (<=3600) frames of 1/60, 1/144, 1/30, 0.016, 0.0005 or 0.0009 s versus one advance of the real sum; both judged against the f64 model at the real sum with tolerance n*1ns + ulp (arbitrary, not exactly representable steps); non-trivial = judged strictly inside a changing segment",
         &C06_LABELS,
         train,
         run.tier.pick(20_000, 500_000),
